@@ -245,6 +245,89 @@ fn with_watchdog<R>(tier: Tier, group: &str, resolve: &(dyn Fn(u64, u64) -> Stri
     })
 }
 
+
+// ---------------------------------------------------------------------------------------------
+// iterator protocol: every way of consuming an iterator of the library must deliver the sequence that
+// repeated next() delivers (a specialised fold/count/last/nth/size_hint must agree with next())
+
+/// `make` creates a fresh iterator; the reference sequence is what repeated `next()` yields (at most `limit` items,
+/// longer iterators are skipped).  From the positions 0, 1, 2, n/2, n-1, n (after that many `next()` calls) the rest
+/// is consumed by fold, count, last, nth(j)+next and for_each, and size_hint must bracket the remaining length.
+pub fn iter_protocol<I, T>(name: &str, limit: usize, make: impl Fn() -> I, obs: &mut Obs)
+where
+    I: Iterator<Item = T>,
+    T: PartialEq + core::fmt::Debug,
+{
+    let mut reference: Vec<T> = vec![];
+    let mut it = make();
+    while let Some(x) = it.next() {
+        reference.push(x);
+        if reference.len() > limit {
+            return;
+        }
+    }
+    // an exhausted iterator stays exhausted
+    if it.next().is_some() {
+        obs.fail("iterator-protocol", format!("{name}: next() after the end yields an item again"));
+    }
+    let n = reference.len();
+    obs.class("iterator-protocol");
+    let mut ks = vec![0, 1, 2, n / 2, n.saturating_sub(1), n];
+    ks.sort();
+    ks.dedup();
+    for k in ks {
+        if k > n {
+            continue;
+        }
+        let adv = || {
+            let mut it = make();
+            for _ in 0..k {
+                it.next();
+            }
+            it
+        };
+        let want = &reference[k..];
+        let (lo, hi) = adv().size_hint();
+        if lo > want.len() || hi.is_some_and(|h| h < want.len()) {
+            obs.fail("iterator-protocol", format!("{name}: after {k} items size_hint = ({lo}, {hi:?}) but {} items remain", want.len()));
+        }
+        let folded: Vec<T> = adv().fold(vec![], |mut v, x| {
+            v.push(x);
+            v
+        });
+        if folded != want {
+            obs.fail("iterator-protocol", format!("{name}: after {k} items fold yields {} items, next() yields {} (first difference at {:?})", folded.len(), want.len(), folded.iter().zip(want.iter()).position(|(a, b)| a != b)));
+        }
+        let c = adv().count();
+        if c != want.len() {
+            obs.fail("iterator-protocol", format!("{name}: after {k} items count() = {c}, next() yields {}", want.len()));
+        }
+        let l = adv().last();
+        if l.as_ref() != want.last() {
+            obs.fail("iterator-protocol", format!("{name}: after {k} items last() = {:?}, expected {:?}", l, want.last()));
+        }
+        let mut each: Vec<T> = vec![];
+        adv().for_each(|x| each.push(x));
+        if each != want {
+            obs.fail("iterator-protocol", format!("{name}: after {k} items for_each yields {} items, next() yields {}", each.len(), want.len()));
+        }
+        let mut js = vec![0, 1, want.len() / 2, want.len().saturating_sub(1), want.len(), want.len() + 1];
+        js.sort();
+        js.dedup();
+        for j in js {
+            let mut it = adv();
+            let got = it.nth(j);
+            let then = it.next();
+            if got.as_ref() != want.get(j) || then.as_ref() != want.get(j + 1) {
+                obs.fail("iterator-protocol", format!("{name}: after {k} items nth({j}) = {:?} then next() = {:?}, expected {:?} then {:?}", got, then, want.get(j), want.get(j + 1)));
+            }
+        }
+        if obs.violations.len() > 8 {
+            return;
+        }
+    }
+}
+
 // ---------------------------------------------------------------------------------------------
 // per-case observation
 
